@@ -22,7 +22,7 @@ def garbage? : String → Option Garbage
   | _ => none
 
 /-- `plain` | `garbage:<kind>:<slots>:<fuel>` | `garbagenog:<kind>:<slots>` | `wrongcommit:<slots>` | `wrongside:<slots>`
-    | `shortr` | `shortxr` | `adaptive:g_r`
+    | `shortr[:<k>]` | `shortxr[:<k>]` (k leading zero bytes of the repr, default 1, 32 = zero) | `adaptive:g_r`
     | `swap:all` | `swap:one:<slots>` | `cross:<i>:<j>` | `commit-other-side:<slots>` | `open-plus-order:<slots>`   (`adaptive:enc_x_r|enc_r|label|Q` are answered `skip:<why no such attack exists>`) -/
 def strategy? (s : String) : Option Strategy :=
   match s.splitOn ":" with
@@ -31,8 +31,10 @@ def strategy? (s : String) : Option Strategy :=
   | ["garbagenog", k, l] => do pure (.garbageNoGrind (← garbage? k) (← natList? l))
   | ["wrongcommit", l] => do pure (.wrongCommit (← natList? l))
   | ["wrongside", l] => do pure (.wrongSide (← natList? l))
-  | ["shortr"] => some .shortR
-  | ["shortxr"] => some .shortXR
+  | ["shortr"] => some (.shortR 1)
+  | ["shortxr"] => some (.shortXR 1)
+  | ["shortr", k] => do pure (.shortR (← k.toNat?))
+  | ["shortxr", k] => do pure (.shortXR (← k.toNat?))
   | ["adaptive", "g_r"] => some .adaptiveGR
   | ["swap", "all"] => some (.swapEnc (List.range 65536))
   | ["swap", "one", l] => do pure (.swapEnc (← natList? l))
